@@ -23,12 +23,12 @@ pub enum Op { Create, Send, Recv(u8), RecvAll(u8), Drop(u8), CancelAll,
 
 struct Live { s: Box<dyn Strm>, expect: VecDeque<u64>, born_after: u64, cancelled: bool, ended: bool }
 
-pub struct Hist { qlen: Vec<usize>, ch: Arc<dyn Chan>, kind: Kind, n: usize, m: usize, live: Vec<Live>, next_id: u64, pub problems: Vec<(String, String)>, pub steps: u64, pub recycled: u64, created: u64, pub stale_seen: bool }
+pub struct Hist { qlen: Vec<usize>, ch: Arc<dyn Chan>, kind: Kind, n: usize, m: usize, live: Vec<Live>, next_id: u64, pub problems: Vec<(String, String)>, pub steps: u64, pub recycled: u64, created: u64, pub stale_seen: bool, drops: u64 }
 
 impl Hist {
     pub fn new(kind: Kind, n: usize, m: usize, origin: Option<u32>) -> Hist {
         rv::set_sequence_origin(origin); let ch = chan::make(kind, n, m, false).expect("instantiation"); rv::set_sequence_origin(None);
-        Hist { qlen: vec![0; m], ch, kind, n, m, live: Vec::new(), next_id: 1, problems: Vec::new(), steps: 0, recycled: 0, created: 0, stale_seen: false }
+        Hist { qlen: vec![0; m], ch, kind, n, m, live: Vec::new(), next_id: 1, problems: Vec::new(), steps: 0, recycled: 0, created: 0, stale_seen: false, drops: 0 }
     }
     fn problem(&mut self, a: &str, s: String) { if self.problems.len() < 6 { let st = self.steps; self.problems.push((a.into(), format!("step {st}: {s}"))) } }
     pub fn legal(&self, op: Op) -> bool {
@@ -80,7 +80,7 @@ impl Hist {
             Op::Recv(i) => { let c = self.live[i as usize].cancelled; if self.recv(i as usize, c).is_none() { self.live[i as usize].ended = true } }
             Op::RecvAll(i) => { let c = self.live[i as usize].cancelled; let mut g = 0; loop { match self.recv(i as usize, c) { Some(true) if g < 100_000 => g += 1, None => { self.live[i as usize].ended = true; break } _ => break } } }
             Op::CancelOnly => { self.ch.cancel_all(); for l in self.live.iter_mut() { l.cancelled = true } }
-            Op::Drop(i) => { let l = self.live.remove(i as usize); drop(l) }
+            Op::Drop(i) => { let l = self.live.remove(i as usize); self.drops += 1; crate::drive::drop_stream(l, !cfg!(miri) && self.drops % 3 == 0) }   // (every third drop: while the thread unwinds from a panic, as a failing consumer task does)
             Op::CancelAll => {
                 self.ch.cancel_all();
                 for i in 0..self.live.len() { let mut g = 0; loop { match self.recv(i, true) { Some(true) => { g += 1; if g > 100_000 { break } } Some(false) => break, None => break } } }
